@@ -3,6 +3,8 @@ package main
 import (
 	"fmt"
 	"go/ast"
+	"go/constant"
+	"go/types"
 	"strings"
 )
 
@@ -13,12 +15,14 @@ func init() {
 		run:  checkC05,
 		about: "C05 (field constraints, patterns and closedness), narrow: decides the shape of the final closedness verdict and of the required-field check, not the evidence bookkeeping. In nodeContext.checkTypos: (a) a 'field not allowed' error is produced only for an arc that is neither hidden/definition/let (allowedInClosed) nor supported by evidence for every requirement set (hasEvidenceForAll), and only for present fields (ArcType <= ArcRequired) — 'hidden and definition fields are never restricted', 'optional constraints on absent fields never make a struct fail'; " +
 			"(b) conversely every arc that fails both tests reaches notAllowedError before the next arc — 'a closed struct never silently gains a disallowed field'; (c) the combined error is attached to the node. In validator.validate: (d) a required field that is still ArcRequired at final validation outside a definition produces NewRequiredNotPresentError. " +
+			"(e) the finite skeleton of field-kind unification: the ArcType enum is ordered member < required < optional < pending < not-present, updateArcType assigns the new kind exactly when it is strictly more restrictive (`a?: & a!:` is required, `a!: & a:` regular), the markers `?`/`!` map to the kinds and back, and allowedInClosed is true exactly for hidden, definition and let labels. " +
 			"It does not decide which conjuncts provide evidence for which field (defID containment, replacement sets, pattern matching): that is run-time data.",
 		trust: []string{"evidence sets (reqSets, conjunctInfo) are value-level and not decided"},
 	})
 }
 
 func checkC05(c *Ctx) {
+	checkC05ArcTypes(c)
 	f := c.fn(adtP, "(*nodeContext).checkTypos")
 	g := c.graph(f)
 	info := f.Info()
@@ -160,4 +164,82 @@ func checkC05(c *Ctx) {
 	}
 	c.check("required.missing-field-reported", vf.Name, vf.Decl.Pos(), okReq,
 		"final validation must report every arc that is still ArcRequired (a required field that no conjunct provided) through NewRequiredNotPresentError, added to the validator's errors")
+}
+
+// checkC05ArcTypes: the finite skeleton of field-constraint unification.
+// ArcType is ordered from most to least restrictive (member < required <
+// optional < pending < not present); unifying two declarations of a field keeps
+// the more restrictive kind (`a?: _ & a!: _` is required, `a!: _ & a: _` is a
+// regular field), and the syntax markers map to the kinds and back.
+func checkC05ArcTypes(c *Ctx) {
+	p := c.pkg(adtP)
+	val := func(name string) int64 {
+		k, ok := p.Types.Scope().Lookup(name).(*types.Const)
+		if !ok {
+			c.broken("anchor: adt.%s not found", name)
+		}
+		v, _ := constant.Int64Val(k.Val())
+		return v
+	}
+	m, r, o, pe, np := val("ArcMember"), val("ArcRequired"), val("ArcOptional"), val("ArcPending"), val("ArcNotPresent")
+	c.check("arctype.enum-order", "adt.ArcType", 0, m < r && r < o && o < pe && pe < np,
+		fmt.Sprintf("ArcMember(%d) < ArcRequired(%d) < ArcOptional(%d) < ArcPending(%d) < ArcNotPresent(%d): comparisons such as `ArcType <= ArcRequired` (present field) and the minimum taken on unification rely on this order", m, r, o, pe, np))
+
+	// updateArcType keeps the minimum
+	f := c.fn(adtP, "(*Vertex).updateArcType")
+	cf := newCaseFn(c, f)
+	less, notPresent, pending := "p0 < recv.ArcType", "ArcNotPresent == recv.ArcType", "ArcPending == recv.ArcType"
+	assign := -1
+	for _, n := range cf.g.Nodes {
+		if as, ok := n.N.(*ast.AssignStmt); ok && len(as.Lhs) == 1 && exprString(as.Lhs[0]) == "v.ArcType" && cf.canon(as.Rhs[0]) == "p0" {
+			assign = n.ID
+		}
+	}
+	missing := cf.missingAtoms(map[string]bool{less: true, notPresent: true})
+	okU := assign >= 0 && len(missing) == 0
+	det := fmt.Sprintf("assignment found=%v, tests missing=%v", assign >= 0, missing)
+	if okU {
+		_, vis := cf.walk(cf.g.Entry, map[string]bool{less: true, notPresent: false, pending: false})
+		_, vis2 := cf.walk(cf.g.Entry, map[string]bool{less: false, pending: false})
+		_, vis3 := cf.walk(cf.g.Entry, map[string]bool{less: true, notPresent: true, pending: false})
+		okU = vis[assign] && !vis2[assign] && !vis3[assign]
+		det = fmt.Sprintf("more restrictive kind assigned=%v, less or equally restrictive kind ignored=%v, not-present arc left alone=%v", vis[assign], !vis2[assign], !vis3[assign])
+	}
+	c.check("arctype.unify-keeps-most-restrictive", f.Name, f.Decl.Pos(), okU,
+		"updateArcType must set v.ArcType = t exactly when t is strictly more restrictive than the current kind (and the arc is not ArcNotPresent): "+det)
+
+	// syntax marker <-> kind, both directions
+	ft := newCaseFn(c, c.fn(adtP, "ConstraintFromToken"))
+	opt, not := eqKey("p0", "token.OPTION"), eqKey("p0", "token.NOT")
+	ft.checkTable("arctype.marker-table", []caseRow{
+		{name: "?", truth: map[string]bool{opt: true, not: false}, want: []string{"ArcOptional"}},
+		{name: "!", truth: map[string]bool{opt: false, not: true}, want: []string{"ArcRequired"}},
+		{name: "none", truth: map[string]bool{opt: false, not: false}, want: []string{"ArcMember"}},
+	}, "`?` declares an optional field constraint, `!` a required one, no marker a regular field")
+	tt := newCaseFn(c, c.fn(adtP, "ArcType.Token"))
+	ko, kr := eqKey("recv", "ArcOptional"), eqKey("recv", "ArcRequired")
+	for _, row := range []struct {
+		name  string
+		truth map[string]bool
+		want  string
+	}{
+		{"optional", map[string]bool{ko: true, kr: false}, "token.OPTION"},
+		{"required", map[string]bool{ko: false, kr: true}, "token.NOT"},
+		{"member", map[string]bool{ko: false, kr: false}, ""},
+	} {
+		path, ok := tt.trace(tt.g.Entry, row.truth)
+		got := tt.lastAssigned(path, "t")
+		c.check("arctype.marker-table", tt.f.Name+"/"+row.name, tt.f.Decl.Pos(), ok && got == row.want && len(tt.missingAtoms(map[string]bool{ko: true, kr: true})) == 0,
+			fmt.Sprintf("ArcType.Token must map %s back to %q; found %q", row.name, row.want, got))
+	}
+
+	// which labels escape closedness
+	ac := newCaseFn(c, c.fn(adtP, "allowedInClosed"))
+	h, d, l := "p0.IsHidden()", "p0.IsDef()", "p0.IsLet()"
+	ac.checkTable("typo.allowed-in-closed-table", []caseRow{
+		{name: "hidden", truth: map[string]bool{h: true, d: false, l: false}, want: []string{"true"}, sub: true},
+		{name: "definition", truth: map[string]bool{h: false, d: true, l: false}, want: []string{"true"}, sub: true},
+		{name: "let", truth: map[string]bool{h: false, d: false, l: true}, want: []string{"true"}, sub: true},
+		{name: "regular", truth: map[string]bool{h: false, d: false, l: false}, want: []string{"false"}, sub: true},
+	}, "hidden, definition and let labels are never restricted by closedness; every other label is")
 }
